@@ -144,8 +144,10 @@ def run_property(prop, tier, only, nproc, timeout, write_evidence, verbose):
     tot = dict(paths=0, passed=0, pruned=0, queries=0, solver_s=0.0, checks=0, proved=0, pwc=0)
     samples = []
     per_lemma = {}
+    entered = set()
     for key in keys:
         r = results[key]
+        entered |= set(r.get('entered', ()))
         lid = key[0]
         lem = R.lemmas[lid]
         cfg = R.cfg(key)
@@ -229,7 +231,7 @@ def run_property(prop, tier, only, nproc, timeout, write_evidence, verbose):
                 obligations=tot['checks'], discharged=tot['proved'],
                 solver_queries=tot['queries'], solver_s=round(tot['solver_s'], 2),
                 harness_instances=len(keys), paths_pruned_by_assumptions=tot['pruned'],
-                functions_encoded=sorted(loader.ENTERED)[:400] if loader.ENTERED else getattr(mod, 'FUNCTIONS', []),
+                functions_encoded=sorted(entered | loader.ENTERED)[:500],
                 bounds=getattr(mod, 'BOUNDS', ''),
                 lemmas={lid: dict(desc=pl['desc'], bounds=pl['bounds'], instances=pl['instances'], paths=pl['paths'],
                                   obligations=pl['obligations'], discharged=pl['discharged'],
